@@ -211,7 +211,7 @@ pub fn strategy() -> impl Strategy<Value = Case> {
 pub fn run(ctx: &Ctx) -> Report {
     let mut rep = Report::new();
     let e = env(ctx, &mut rep);
-    pt_run_opts(ctx, "c01", ctx.n(240, 4000), 12, strategy, |c| check(&e, c), &mut rep);
+    pt_run_opts(ctx, "c01", ctx.n(240, 1200), 12, strategy, |c| check(&e, c), &mut rep);
     // the positive control must have been exercised for every layout, otherwise the run proves nothing
     let mut ls = e.layouts.clone();
     ls.dedup();
